@@ -37,7 +37,7 @@ PROP = dict(
           'exception, or BP128 had >= 2 blocks); distinct by hash of (codec, '
           'variant, codec parameters, array contents) - placement is not '
           'part of the hash, so two placements of one array count once'),
-    quick=dict(configs=['asan', 'rel', 'native'], cases=2500000, maxlen=200),
+    quick=dict(configs=['asan', 'rel', 'native'], cases=2000000, maxlen=200),
     thorough=dict(configs=['asan', 'rel', 'native'], cases=5000000, maxlen=400,
                   fuzz_s=120, setmax=1 << 23),
     case_timeout=60,
